@@ -424,8 +424,10 @@ Close Scope string_scope.
 (* ------------------------------------------------------------------ 14. RF pulses
    rfpulse.rfpulse + make_pulse_sequence (+ the duration check of each T) *)
 Inductive pulsedur : Type := PScalar (d : Q) | PList (l : list Q).
-Definition pulse_ok (have_rf_or_alpha : bool) (ndim : nat) (values : list QI) (dur : pulsedur) : verdict :=
-  guard (negb have_rf_or_alpha) ValueError >>
+(* rf / alpha: None = not given.  "Either rf or alpha must be provided" tests `is None`:
+   a zero flip angle or a zero amplitude is a value, not an absence *)
+Definition pulse_ok (rf alpha : option Q) (ndim : nat) (values : list QI) (dur : pulsedur) : verdict :=
+  guard (is_none rf && is_none alpha) ValueError >>
   guard (1 <? ndim)%nat ValueError >>
   guard (existsb (fun v => Qltb 1 (abs2 v)) values) ValueError >>
   match dur with
